@@ -85,6 +85,10 @@ type FS struct {
 	// lock, then Gate / Fault / MidSync run without the lock (the "disk" is busy, other calls proceed), then the
 	// snapshot becomes the durable contents unless a newer one already is.
 	SyncSnapshot bool
+	// LinkSizeZero (off by default) makes Lstat report size 0 for symbolic links, as some backends (memfs) do,
+	// instead of the length of the target; Dump reports the same number, so oracles can compare with "what the
+	// backend's lstat says" whatever the convention.
+	LinkSizeZero bool
 	// MidSync, when non-nil, is called without the lock between the snapshot and its installation (SyncSnapshot mode).
 	MidSync func(p string)
 }
@@ -248,6 +252,14 @@ func (i info) Sys() interface{}   { return nil }
 // DirSize is the size every directory reports.
 const DirSize = 4096
 
+func (f *FS) mkinfo(name string, n *inode) info {
+	i := mkinfo(name, n)
+	if f.LinkSizeZero && n.kind == KLink {
+		i.size = 0
+	}
+	return i
+}
+
 func mkinfo(name string, n *inode) info {
 	i := info{name: name, n: n, mt: n.mtime}
 	switch n.kind {
@@ -278,7 +290,7 @@ func (f *FS) stat(op, p string, follow bool) (os.FileInfo, error) {
 	if err != nil {
 		return nil, err
 	}
-	return mkinfo(path.Base(p), n), nil
+	return f.mkinfo(path.Base(p), n), nil
 }
 
 func (f *FS) Stat(p string) (os.FileInfo, error)  { return f.stat("Stat", p, true) }
@@ -626,7 +638,7 @@ func (h *file) Close() error { return nil }
 func (h *file) Stat() (os.FileInfo, error) {
 	h.fs.mu.Lock()
 	defer h.fs.mu.Unlock()
-	return mkinfo(path.Base(h.name), h.n), nil
+	return h.fs.mkinfo(path.Base(h.name), h.n), nil
 }
 func (h *file) ReadAt(b []byte, off int64) (int, error) {
 	if err := h.fs.pre("ReadAt", h.name); err != nil {
@@ -795,7 +807,7 @@ func (h *file) Readdir(int) ([]os.FileInfo, error) {
 	sort.Strings(names)
 	out := make([]os.FileInfo, len(names))
 	for i, k := range names {
-		out[i] = mkinfo(k, h.n.children[k])
+		out[i] = h.fs.mkinfo(k, h.n.children[k])
 	}
 	h.fs.rec(Call{Op: "Readdir", Path: h.name}, nil)
 	return out, nil
@@ -867,6 +879,9 @@ func (f *FS) DumpLocked(durable bool) []Entry {
 			e.Size = DirSize
 		case KLink:
 			e.Size, e.Target = int64(len(n.target)), n.target
+			if f.LinkSizeZero {
+				e.Size = 0
+			}
 		}
 		out = append(out, e)
 		if n.kind == KDir {
